@@ -9,10 +9,26 @@ RULE = ('cases are byte strings (hex). exhaustive sub-check: every string of len
 ASSUMPTIONS = ['harness/ref/refcrc.py bitwise definitions (self-checked against the "123456789" check values)']
 
 
+def _try(f, *a):
+    try:
+        return True, f(*a)
+    except Exception as e:        # a buffer type the library does not take is not a checksum error
+        return False, e
+
+
 def check(case):
     from pytoniq_core.crypto.crc import crc16, crc32c
     data = bytes.fromhex(case['data'])
     r16 = refcrc.crc16_xmodem(data)
+    # calls that are refused part-way (an element that is no byte, a byte order that does not exist) come first: whatever
+    # they raise, the checksum of the next byte string is still a function of that byte string alone
+    junk = list(data[:1 + len(data) // 2]) + ['x']
+    for f in (lambda: crc32c(junk), lambda: crc16(junk), lambda: crc32c(data, 'middle'),
+              lambda: crc32c(iter(junk), 'big'), lambda: crc16(iter(junk))):
+        try:
+            f()
+        except Exception:
+            pass
     got = crc16(data)
     if got != r16.to_bytes(2, 'big'):
         return Fail('crc16/mismatch', f'crc16({data.hex()[:80]})={got!r} expected {r16:04x}')
@@ -31,6 +47,16 @@ def check(case):
                         f'expected {r32.to_bytes(4, order).hex()}')
     if crc32c(data) != r32.to_bytes(4, 'little') or crc16(data) != r16.to_bytes(2, 'big'):
         return Fail('crc/depends-on-earlier-calls/repeat', data.hex()[:80])
+    # the same byte string behind the other buffer types Python has for bytes (memoryview.tobytes() == data for each of them,
+    # the signed-char view yields items -128..127 for the same bytes)
+    if data:
+        for name, d in (('memoryview', memoryview(data)), ('memoryview-signed-char', memoryview(data).cast('b')),
+                        ('memoryview-of-bytearray', memoryview(bytearray(data)))):
+            ok16, g16 = _try(crc16, d)
+            ok32, g32 = _try(crc32c, d)
+            if (ok16 and g16 != r16.to_bytes(2, 'big')) or (ok32 and g32 != r32.to_bytes(4, 'little')):
+                return Fail(f'crc/{name}-input-differs', f'{data.hex()[:80]}: crc16={g16!r} crc32c={g32!r} '
+                            f'expected {r16:04x} / {r32.to_bytes(4, "little").hex()}')
     # a mutable byte string that is changed in place between two calls
     if data:
         ba = bytearray(data)
